@@ -1,4 +1,4 @@
-import NomtModel.Store.FrameFresh
+import NomtModel.Store.FrameSmall
 /-!
 # C17 — the previous durable image stays intact until the switch-over: the CONTENT clause for `ln` / `bbn`
 
@@ -140,5 +140,36 @@ example (c : ByteArray) (hc : c.size = PAGE) :
   T17_10_page_write_touches_its_page _ [(3, c), (0, c), (7, c)] [(3, c), (7, c)]
     (List.Sublist.cons_cons _ (List.Sublist.cons _ (List.Sublist.refl _)))
     (by intro w hw; simp only [List.mem_cons, List.mem_nil_iff, or_false] at hw; rcases hw with rfl | rfl | rfl <;> exact hc)
+
+/-- non-vacuity of T17.9 on a kernel-checked accepted image WITH a leaf and a branch node (`Store/FrameSmall.lean`: meta with
+frontier 2 / 2, `ln` = page 0 + the leaf `encodeLeaf [(key1, 010203), (key2, 09)]`, `bbn` = page 0 + the branch node
+`encodeBranch [0 ↦ leaf page 1]`, built with the mirror encoders and decoded through `leaf_rt` / `branch_rt`): the image
+abstracts to the two keys; page 1 of `ln` is marked 1; the monitor rejects a trace that writes it; and overwriting it in place
+changes `absLeaves` although no other page is touched. -/
+example :
+    absLeaves Small.img = .ok [[(Small.key1, [1, 2, 3].toByteArray), (Small.key2, [9].toByteArray)]] ∧
+    (∃ msg, checkPlacement Small.img
+      ({ kind := "Write", file := "ln", offset := 4096, len := 4096, site := "io.send" } :: Small.tr) = .error msg) ∧
+    Small.lnMarks[1]! = 1 ∧
+    Touched Small.img.ln (writePage Small.img.ln 1 (zeros PAGE)) [1] ∧
+    absLeaves { Small.img with ln := writePage Small.img.ln 1 (zeros PAGE) } ≠ absLeaves Small.img := by
+  have h := T17_9_inplace_leaf_write_changes_abstraction (Small.hwalk Small.pages0) (Small.hleaves Small.pages0)
+    (Small.hmeta _ _ _) (Small.hseps Small.pages0) (0, 1) List.mem_cons_self (zeros PAGE) (size_zeros _) decodeLeaf_zeros
+  exact ⟨Small.hleaves Small.pages0, Small.inplace_rejected, h.1, h.2.2.2.1, h.2.2.2.2⟩
+
+/-- non-vacuity of T17.7 / T17.7b on the same image: a sync that adds one more key writes a new leaf at the `ln` frontier and a
+new branch node at the `bbn` frontier (`Small.tr`, accepted); in the TORN execution where only the `bbn` write reached the file
+(any contents `c`), the image still decodes to the two old keys under the old meta page. -/
+example (c : ByteArray) (hc : c.size = PAGE) :
+    let B : Image := { Small.img with ln := applyWrites Small.img.ln [], bbn := applyWrites Small.img.bbn [(2, c)] }
+    absLeaves B = .ok [[(Small.key1, [1, 2, 3].toByteArray), (Small.key2, [9].toByteArray)]] ∧ wfImage B = wfImage Small.img := by
+  obtain ⟨stP, hacc⟩ := Small.accepted
+  have hw1 : (2 : Nat) ∈ writesOf "ln" (preMeta Small.tr) := by decide
+  have hw2 : (2 : Nat) ∈ writesOf "bbn" (preMeta Small.tr) := by decide
+  have h := T17_7b_torn_writes_keep_old_state hacc [(2, c)] [(2, c)] [] [(2, c)]
+    (by intro w hw; simp only [List.mem_cons, List.mem_nil_iff, or_false] at hw; subst hw; exact ⟨hc, hw1⟩)
+    (by intro w hw; simp only [List.mem_cons, List.mem_nil_iff, or_false] at hw; subst hw; exact ⟨hc, hw2⟩)
+    (List.nil_sublist _) (List.Sublist.refl _)
+  exact ⟨h.2.2.trans (Small.hleaves Small.pages0), h.1⟩
 
 end Nomt.C17
